@@ -620,7 +620,7 @@ impl Property for C15 {
         900
     }
     fn quick_cases(&self) -> u64 {
-        40_000
+        160_000
     }
     fn states_termination(&self) -> bool {
         true
